@@ -961,8 +961,13 @@ func eddsaCase() *gcase {
 				vmsg.Add(vmsg, big.NewInt(1)).Mod(vmsg, q)
 			case 2:
 				pub = other.Public()
-			case 3: // the signature of another message
-				sig, _ = priv.Sign(pad(new(big.Int).Add(msg, big.NewInt(7))), gchash.MIMC_BN254.New())
+			case 3: // the signature of another message (reduced: the MiMC hasher refuses non-reduced blocks)
+				m2 := new(big.Int).Add(msg, big.NewInt(7))
+				if s2, err := priv.Sign(pad(m2.Mod(m2, q)), gchash.MIMC_BN254.New()); err == nil && len(s2) == len(sig) {
+					sig = s2
+				} else {
+					kind = 0
+				}
 			case 4: // S altered in its last byte
 				sig = append([]byte{}, sig...)
 				sig[len(sig)-1] ^= 1
